@@ -11,6 +11,7 @@ package main
 // Helpers of this file are shared with c15.go and c06.go.
 
 import (
+	"strconv"
 	"fmt"
 	"sort"
 	"strings"
@@ -41,6 +42,8 @@ func syncOptions(toks []string) (world.Options, []string) {
 			opt.DefaultBackend = t[len("opt~db="):]
 		case t == "opt~xns=1":
 			opt.Dyn.StaticCrossNamespaceSecrets = true
+		case strings.HasPrefix(t, "opt~shards="):
+			opt.Shards, _ = strconv.Atoi(t[len("opt~shards="):])
 		case t == "opt~subsets=1":
 			ops = append(ops, t) // a world op (Endpoints layout), not a controller option
 		case strings.HasPrefix(t, "opt~"):
@@ -256,7 +259,8 @@ func (g *syncGen) baseOps() (ops []string, drain bool) {
 				ops = append(ops, fmt.Sprintf("ep~%s/%s!%s", ns, s, a))
 			}
 			if drain && r.Chance(1, 2) {
-				k := r.Range(5, 6)
+				// 5, 6: already gone from the Endpoints; 1..4: may still be published there (ready or not)
+				k := r.Range(1, 6)
 				ops = append(ops, fmt.Sprintf("pod+%s/%s-%d!10.%d.%d.%d!app=%s!t", ns, s, k, nsb, si+1, k, s))
 			}
 		}
@@ -481,6 +485,8 @@ var c03corpus = []string{
 	"svc+d/app!http:80:8080+adm:81:adm!- ep~d/app!10.0.1.1:r:app-1+10.0.1.2:n:app-2 sec+d/tls1!tls!1!a.local ing+d/i1@1!haproxy,-!-!a.local>/a:Prefix:app:80+/a:_:app:adm;_>/:Prefix:app:http;b.local>/:Prefix:app:adm!a.local>tls1!app:80",
 	// drain-support: not ready and terminating endpoints as weight 0
 	"cm~drain-support=true svc+d/app!http:80:8080!- ep~d/app!10.0.1.1:r:app-1+10.0.1.2:n:app-2 pod+d/app-5!10.0.1.5!app=app!t ing+d/i1@1!haproxy,-!-!a.local>/:Prefix:app:80!-!-",
+	// a terminating pod whose address is still published as ready: one server for the address, draining
+	"cm~drain-support=true svc+d/app!http:80:8080!- ep~d/app!10.0.1.1:r:app-1+10.0.1.2:r:app-2 pod+d/app-2!10.0.1.2!app=app!t ing+d/i1@1!haproxy,-!-!a.local>/:Prefix:app:80!-!-",
 	// several Endpoints subsets carry the port: ready and (drain-support) not ready addresses of all of them
 	"opt~subsets=1 cm~drain-support=true svc+d/app!http:80:8080!- ep~d/app!10.0.1.1:r:app-1+10.0.1.2:r:app-2+10.0.1.3:n:app-3+10.0.1.4:n:app-4 ing+d/i1@1!haproxy,-!-!a.local>/:Prefix:app:80!-!-",
 	// --default-backend-service
